@@ -192,3 +192,6 @@ for mod, names in ((C01, ('get_CpoR', 'get_HoRT', 'get_SoR')), (C07, ('get_Selem
 
 from . import standins
 STANDINS = [standins.c15_histories]
+
+from . import C05init     # noqa: E402
+UNITS = UNITS + C05init.UNITS[1:]      # coupling invariant of ThermochemIncomplete (constructor / _setup_correlation), default-table frame
